@@ -1,2 +1,282 @@
+"""C02: whole Wa programs built natively (the real `wa native build`, or its exact in-process equivalent for
+generated *.wa.go text) vs the same WAT on the embedded wazero vs `wa run` (default wasm target).
+
+Failures are localised to a root cause by REPAIRING THE ARTEFACT: each known native back-end defect has a textual
+repair of the emitted assembly; the set of repairs that makes the executable agree with WebAssembly names the
+root causes (finding keys `native:<repair>`).  A program that still differs with every repair applied is reported
+under `native:unclassified` (an unknown defect: the check fails)."""
+import concurrent.futures as cf, glob, hashlib, os, re, shutil, subprocess
+from lib import vlib
+
+GCC_ARGS = ["-static", "-z", "noexecstack", "-nostdlib"]
+
+
+# ------------------------------------------------------------------------------------------------ repairs
+def rep_memret(s):
+    """memory-return functions store rcx (Windows hidden-pointer register) at [rbp+16]: on Linux that slot is the first stack argument"""
+    return re.subn(r"\n[ \t]*mov qword ptr \[rbp\+16\], rcx # return address\n", "\n", s)
+
+
+def rep_elem(s):
+    """table initialisation writes element k at byte offset k instead of 8*k"""
+    lines = s.split("\n")
+    n = 0
+    for i, l in enumerate(lines[:-1]):
+        m = re.match(r"\s*# elem\[\d+\]: table\[(\d+)\+(\d+)\] = ", l)
+        if m:
+            off = (int(m.group(1)) + int(m.group(2))) * 8
+            m2 = re.match(r"(\s*mov qword ptr \[rax)(\+\d+)?(\], \d+)", lines[i + 1])
+            if m2 and (m2.group(2) or "+0") != "+%d" % off:
+                lines[i + 1] = m2.group(1) + ("+%d" % off if off else "") + m2.group(3)
+                n += 1
+    return "\n".join(lines), n
+
+
+def rep_zeroinit(s):
+    """locals / result variables are zeroed with a 32-bit store (i64/f64 keep a stale upper half)"""
+    return re.subn(r"mov dword ptr (\[rbp[+-]\d+\], 0 # (?:local .* = 0|ret\.\d+ = 0))", r"mov qword ptr \1", s)
+
+
+def rep_xmm4(s):
+    """stack-passed float arguments are staged through xmm4, an argument register"""
+    return re.subn(r"(movs[sd]) xmm4, ([dq]word ptr \[rbp[+-]\d+\])\n([ \t]*)\1 ([dq]word ptr \[rsp[+-]\d+\]), xmm4",
+                   r"\1 xmm15, \2\n\3\1 \4, xmm15", s)
+
+
+def rep_memgrow(s):
+    """memory.grow reads its i32 operand as a qword"""
+    return re.subn(r"(# memory\.grow\n(?:.*\n){2}[ \t]*)mov rax, qword ptr (\[rbp[+-]\d+\])", r"\1mov eax, dword ptr \2", s)
+
+
+REPAIRS = [("memret-prologue-clobbers-stack-arg", rep_memret), ("table-elem-offset-unscaled", rep_elem), ("local-zero-init-32bit", rep_zeroinit),
+           ("float-stack-arg-staged-in-xmm4", rep_xmm4), ("memory-grow-qword-operand", rep_memgrow)]
+
+
+def native_status(rc):
+    from checks import c02
+    return c02.native_status(rc)
+
+
+# ------------------------------------------------------------------------------------------------ program sources
+def example_programs():
+    """single-file programs of /repo/waroot/examples that only print"""
+    root = os.path.join(vlib.REPO, "waroot", "examples")
+    out = []
+    for pat in ("*.wa", "misc/*.wa", "fib/fib.wa", "native-wa-01/*.wa", "reftoptr/*.wa", "runtime_print/*.wa", "math-bits/*.wa"):
+        for p in sorted(glob.glob(os.path.join(root, pat))):
+            b = os.path.basename(p)
+            if b.startswith("test_") or b.endswith("_test.wa") or b == "native_test_.wa":
+                continue
+            out.append(("example:" + os.path.relpath(p, root), p))
+    return out
+
+
+def corpus_programs():
+    d = os.path.join(vlib.VERIF, "corpus", "C02", "progs")
+    return [("corpus:" + os.path.basename(p), p) for p in sorted(glob.glob(os.path.join(d, "*.wa")) + glob.glob(os.path.join(d, "*.wa.go")))]
+
+
+def generated_programs(ctx, n):
+    try:
+        from gen import progs as genprogs
+    except Exception as e:
+        ctx.notes.append("shared program generator not available: %r" % (e,))
+        return []
+    out = []
+    d = os.path.join(ctx.tmp, "gen")
+    os.makedirs(d, exist_ok=True)
+    for i in range(n):
+        size = ["small", "medium"][i % 2] if ctx.tier == "quick" else ["small", "medium", "large"][i % 3]
+        p = genprogs.gen_program(ctx.rng, size=size, stream="safe")
+        path = os.path.join(d, "g%03d.wa.go" % i)
+        with open(path, "w") as f:
+            f.write(p.render_go())
+        out.append(("gen:%03d" % i, path, sorted(p.features)))
+    return out
+
+
+# ------------------------------------------------------------------------------------------------ one program
+def run_exe(exe, timeout=120):
+    """a native Wa executable zero-fills its whole linear memory byte by byte at start-up (64 MB): seconds on a loaded machine.
+    A timeout is re-tried once with a much longer limit before it counts."""
+    try:
+        p = subprocess.run([exe], capture_output=True, timeout=timeout)
+    except subprocess.TimeoutExpired as e:
+        if timeout < 600:
+            return run_exe(exe, 600)
+        return {"rc": "timeout", "out": (e.stdout or b"").decode("utf-8", "replace"), "err": ""}
+    return {"rc": p.returncode, "out": p.stdout.decode("utf-8", "replace"), "err": p.stderr.decode("utf-8", "replace")[-300:]}
+
+
+def agrees(nat, ref):
+    from checks import c02
+    return nat["out"] == ref["out"] and c02.status_agrees(nat, ref)
+
+
+def one_program(ctx, B, h, wa, name, path):
+    """returns dict: name, verdict (ok | rejected:<why> | ref-failed:<why> | differs), details"""
+    d = os.path.join(ctx.tmp, "p", hashlib.sha1(name.encode()).hexdigest()[:10])
+    os.makedirs(d, exist_ok=True)
+    ext = ".wa.go" if path.endswith(".wa.go") else ".wa"
+    src = os.path.join(d, "prog" + ext)
+    shutil.copy(path, src)
+    res = {"name": name, "path": path}
+    # the WAT (and complete assembly text) the native build is made from
+    r = subprocess.run([h, "walinux", src, os.path.join(d, "prog.wat"), os.path.join(d, "prog.h.s")], capture_output=True, text=True, timeout=300)
+    if r.returncode == 3:
+        res["verdict"] = "rejected:front-end"          # does not compile for the linux target: no native build exists
+        res["why"] = r.stderr[-200:]
+        return res
+    if r.returncode != 0:
+        res["verdict"] = "rejected:wat2x64"
+        res["why"] = re.sub(r"\s+", " ", r.stderr)[-200:]
+        return res
+    res["links_native_code"] = "clang=0" not in r.stdout
+    # the real CLI for .wa sources
+    exe = os.path.join(d, "prog.exe")
+    asm = os.path.join(d, "prog.h.s")
+    use_cli = ext == ".wa" and not os.environ.get("C02_FORCE_HARNESS")      # (debug aid: build everything through the harness path)
+    if use_cli:
+        try:
+            r = subprocess.run([wa, "native", "build", "-o", exe, src], capture_output=True, text=True, timeout=300, cwd=d)
+        except subprocess.TimeoutExpired:
+            res["verdict"] = "rejected:native-build-timeout"
+            return res
+        if r.returncode != 0 or not os.path.exists(exe):
+            msg = sorted(set(re.findall(r"Error: (.*)", r.stdout + r.stderr)))
+            res["verdict"] = "rejected:gcc" if msg else "rejected:native-build"
+            res["why"] = ("; ".join(msg) or (r.stdout + r.stderr))[-300:]
+            return res
+        # the harness path must be the CLI path: identical assembly text
+        try:
+            a, b = open(exe + ".s").read(), open(asm).read()
+            a = re.sub(r"^# 源文件: .*\n", "", a)
+            b = re.sub(r"^# 源文件: .*\n", "", b)
+            if a != b:
+                res["asm_differs_from_cli"] = True
+        except OSError:
+            pass
+    else:
+        r = subprocess.run(["gcc", asm, "-o", exe] + GCC_ARGS, capture_output=True, text=True, timeout=300)
+        if r.returncode != 0:
+            msg = sorted(set(re.findall(r"Error: (.*)", r.stderr)))
+            res["verdict"] = "rejected:gcc"
+            res["why"] = "; ".join(msg)[-300:]
+            return res
+    ref = B.run_wazero(os.path.join(d, "prog.wat"))
+    if ref["st"].startswith(("error:", "timeout")):
+        res["verdict"] = "ref-failed"
+        res["why"] = ref["st"][:200]
+        return res
+    nat = run_exe(exe)
+    res["ref_status"] = ref["st"][:60]
+    res["lines"] = ref["out"].count("\n")
+    if use_cli:
+        try:
+            w = subprocess.run([wa, "run", src], capture_output=True, timeout=300, cwd=d)
+            # (on a trap `wa run` prints the runtime's error text to stdout: only clean exits are comparable)
+            res["wasm_target_same"] = (w.stdout.decode("utf-8", "replace") == ref["out"]) if (w.returncode == 0 and ref["st"] == "ok") else None
+            if res["wasm_target_same"] is False:
+                res["wasm_target_out"] = w.stdout.decode("utf-8", "replace")[:300]
+        except subprocess.TimeoutExpired:
+            res["wasm_target_same"] = None
+    if agrees(nat, ref):
+        res["verdict"] = "ok"
+        return res
+    # ---- localise by repairing the artefact
+    text = open(asm).read()
+    rl, wl = ref["out"].splitlines(), nat["out"].splitlines()
+    k = next((i for i, (a, b) in enumerate(zip(rl, wl)) if a != b), min(len(rl), len(wl)))
+    res["first_diff"] = {"line": k, "native": wl[k] if k < len(wl) else "<none: %s>" % native_status(nat["rc"]),
+                         "wasm": rl[k] if k < len(rl) else "<none: %s>" % ref["st"][:40], "native_status": native_status(nat["rc"])}
+
+    def build_run(repairs, tag):
+        t = text
+        applied = []
+        for nm, fn in REPAIRS:
+            if nm in repairs:
+                t, n = fn(t)
+                if n:
+                    applied.append(nm)
+        p = os.path.join(d, "rep_%s.s" % tag)
+        with open(p, "w") as f:
+            f.write(t)
+        r = subprocess.run(["gcc", p, "-o", p[:-2] + ".exe"] + GCC_ARGS, capture_output=True, text=True, timeout=300)
+        if r.returncode != 0:
+            return None, applied
+        return run_exe(p[:-2] + ".exe"), applied
+    # cumulative search in the fixed order of REPAIRS, then leave-one-out on the prefix that was needed
+    chosen = []
+    natr = None
+    for nm, _ in REPAIRS:
+        natr, applied = build_run(chosen + [nm], "c%d" % len(chosen))
+        if nm not in applied:
+            continue                      # the pattern does not occur in this program
+        chosen.append(nm)
+        if natr is not None and agrees(natr, ref):
+            break
+    else:
+        res["verdict"] = "differs"
+        res["needed"] = None
+        if natr is not None:
+            wl2 = natr["out"].splitlines()
+            k2 = next((i for i, (a, b) in enumerate(zip(rl, wl2)) if a != b), min(len(rl), len(wl2)))
+            res["after_all_repairs"] = {"line": k2, "native": wl2[k2] if k2 < len(wl2) else "<none: %s>" % native_status(natr["rc"]),
+                                        "wasm": rl[k2] if k2 < len(rl) else "<none: %s>" % ref["st"][:40], "applied": chosen}
+        return res
+    needed = [chosen[-1]]
+    for nm in chosen[:-1]:
+        n2, _ = build_run([x for x in chosen if x != nm], "wo_" + nm[:12])
+        if n2 is None or not agrees(n2, ref):
+            needed.append(nm)
+    res["verdict"] = "differs"
+    res["needed"] = needed
+    return res
+
+
 def run_programs(ctx, B, h, dist, samples, nontrivial):
-    pass
+    wa = ctx.build_wa()
+    quick = ctx.tier == "quick"
+    progs = [(n, p, None) for n, p in corpus_programs()] + [(n, p, None) for n, p in example_programs()]
+    progs += generated_programs(ctx, 12 if quick else 300)
+    with cf.ThreadPoolExecutor(16) as ex:
+        results = list(ex.map(lambda a: one_program(ctx, B, h, wa, a[0], a[1]), progs))
+    verdicts = {}
+    feats = {}
+    dist["programs"] = len(progs)
+    dist["program_failures"] = 0
+    rejected = {}
+    for (name, path, features), r in zip(progs, results):
+        v = r["verdict"]
+        verdicts[v.split(":")[0]] = verdicts.get(v.split(":")[0], 0) + 1
+        if v in ("ok", "differs"):
+            nontrivial.add(("program", name.split(":")[0], r.get("lines", 0) // 5))
+        for f in (features or []):
+            feats[f] = feats.get(f, 0) + 1
+        if v.startswith("rejected") or v == "ref-failed":
+            rejected.setdefault(v + " " + re.sub(r"[0-9A-Fa-f]{6,}|\d+", "N", r.get("why", ""))[:120], []).append(name)
+            continue
+        if r.get("asm_differs_from_cli"):
+            ctx.proof["broken"].append({"theorem": "harness walinux == `wa native build`", "why": "assembly text differs for %s" % name})
+        if r.get("wasm_target_same") is False:
+            ctx.violation("runtime:linux-target-output-differs-from-wasm-target",
+                          "%s: the linux-target WAT prints differently from `wa run` (wasm target) on the same runtime: %r" % (name, r.get("wasm_target_out", "")[:80]),
+                          {"program": name, "source": open(path).read()[:3000]})
+        if v == "ok":
+            if len(samples) < 10:
+                samples.append({"program": name, "lines": r.get("lines"), "status": r.get("ref_status")})
+            continue
+        dist["program_failures"] += 1
+        src = open(path).read()
+        if r["needed"] is None:
+            ctx.violation("native:unclassified", "%s: native executable differs from WebAssembly at output line %d (native %r, wasm %r) and no known repair explains it; after all repairs: %s" % (
+                name, r["first_diff"]["line"], r["first_diff"]["native"][:60], r["first_diff"]["wasm"][:60], r.get("after_all_repairs")),
+                {"program": name, "first_diff": r["first_diff"], "after_all_repairs": r.get("after_all_repairs"), "source": src[:4000]})
+        else:
+            for nm in r["needed"]:
+                ctx.violation("native:" + nm, "%s: native output differs at line %d (native %r, wasm %r); repairing `%s` in the emitted assembly makes it agree" % (
+                    name, r["first_diff"]["line"], r["first_diff"]["native"][:60], r["first_diff"]["wasm"][:60], nm),
+                    {"program": name, "first_diff": r["first_diff"], "repairs_needed": r["needed"], "source": src[:4000]})
+    dist["program_verdicts"] = verdicts
+    dist["program_rejected"] = {k: v[:6] for k, v in sorted(rejected.items())[:30]}
+    dist["feature_counts"] = feats
